@@ -1,4 +1,4 @@
-import TcheranVerif.Driver.GenPos
+import TcheranVerif.Driver.Gens
 import TcheranVerif.Model.Geometry
 /-!
 # tvdriver — the model behind the line protocol
@@ -39,9 +39,25 @@ def movesAnswer (g : Game) : String :=
       s!"check={chk} n={legal.length} ncaps={caps.length} staged={boolDigit (caps ++ quiets == legal)} sorted=[{sortedMoves legal}] order=[{" ".intercalate (legal.map Move.text)}]"
     | _, _ => "panic"
 
+def posFeatures (p : Rules.Pos) (legal : List Move) : List String :=
+  let pseudo := Rules.pseudoMoves p
+  let chk := Rules.inCheck p.board p.player
+  let illegalNonKing := pseudo.any fun m =>
+    !(legal.contains m) && (Rules.at' p.board m.src).any (fun pc => pc.kind != .king) && !m.isEnPassant
+  let r := p.rights.forP p.player
+  let f (b : Bool) (n : String) : List String := if b then [n] else []
+  f chk "check" ++ f (chk && !(pseudo.any fun m => legal.contains m && (Rules.at' p.board m.src).any (fun pc => pc.kind != .king))) "check-king-moves-only"
+    ++ f p.ep.isSome "ep-target" ++ f (legal.any (·.isEnPassant)) "ep-legal"
+    ++ f (pseudo.any (fun m => m.isEnPassant && !(legal.contains m))) "ep-illegal"
+    ++ f (!chk && illegalNonKing) "pinned"
+    ++ f (r.kingSide || r.queenSide) "castle-right" ++ f (legal.any (·.isCastling)) "castle-legal"
+    ++ f ((r.kingSide || r.queenSide) && !(legal.any (·.isCastling))) "castle-blocked"
+    ++ f (legal.any (·.isPromotion)) "promotion" ++ f (chk && legal.any (·.isPromotion)) "promotion-in-check"
+    ++ f legal.isEmpty "no-legal-move"
+
 def movesSpec (p : Rules.Pos) : String :=
   let legal := Rules.legalMoves p
-  s!"check={boolDigit (Rules.inCheck p.board p.player)} n={legal.length} sorted=[{sortedMoves legal}]"
+  s!"check={boolDigit (Rules.inCheck p.board p.player)} n={legal.length} sorted=[{sortedMoves legal}] F={",".intercalate (posFeatures p legal)}"
 
 /-- `play`: model and specification run side by side over the op list -/
 def playAnswer (start : Position) (ops : List String) : String × String :=
@@ -126,10 +142,12 @@ def handle (line : String) : String × String :=
     match readPosition fen with
     | some p => playAnswer p []
     | none => bad
-  | ["fen", text] => (fenAnswer text, "-")
-  | ["fenwrite", fen] =>
+  | "fen" :: rest => (fenAnswer ("\t".intercalate rest), "-")
+  | ["fenrt", fen] =>
     match readPosition fen with
-    | some p => (Fen.write p.game, posText p.pos)
+    | some p =>
+      let w := Fen.write p.game
+      (s!"W={w} G0={dumpGame p.game} G1={fenAnswer w}", "-")
     | none => bad
   | _ => bad
 
@@ -212,7 +230,9 @@ def genMoves (seed n : Nat) (rootsFile : String) : IO Unit := do
   let roots ← readLines rootsFile
   let out ← IO.getStdout
   for f in roots do
-    if (readPosition f).isSome then out.putStrLn s!"moves\t{f}"
+    match readPosition f with
+    | some p => out.putStrLn s!"moves\t{posText p.pos}"
+    | none => pure ()
   for p in genPositions seed n roots do
     out.putStrLn s!"moves\t{posText p}"
 
@@ -260,6 +280,86 @@ def genPlay (seed n : Nat) (rootsFile : String) : IO Unit := do
         | none => pure ()
     out.putStrLn s!"play\t{posText p}\t{" ".intercalate ops.reverse}"
 
+
+def genTemplates (seed n : Nat) : IO Unit := do
+  let out ← IO.getStdout
+  let mut r := Rng.ofSeed (seed + 101)
+  let mut k := 0
+  let mut tries := 0
+  while k < n && tries < 40 * n + 1000 do
+    tries := tries + 1
+    let (r1, p) := templatePos r
+    r := r1
+    match p with
+    | some p =>
+      out.putStrLn s!"moves\t{posText p}"
+      k := k + 1
+    | none => pure ()
+
+def genDraws (seed n : Nat) (rootsFile : String) : IO Unit := do
+  let roots ← readLines rootsFile
+  let out ← IO.getStdout
+  let mut r := Rng.ofSeed (seed + 211)
+  let rootPos := (startFen :: roots).filterMap fun f => (readPosition f).map (·.pos)
+  for i in List.range n do
+    let (r1, c) := r.below 10
+    r := r1
+    if c < 3 then
+      -- sparse material, possibly with a high clock
+      let (r2, p) := sparsePos r
+      r := r2
+      match p with
+      | some p =>
+        let (r3, ms) := shufflePlayout r p (i % 7)
+        r := r3
+        out.putStrLn s!"play\t{posText p}\t{" ".intercalate (ms.map Move.text)}"
+      | none => pure ()
+    else
+      let (r2, root) := if c < 6 then r.pick rootPos else (randomLegal r 10)
+      -- sometimes give the start a non-zero clock without history
+      let (r3, hm) := r2.below 140
+      let (r4, useHm) := r3.below 3
+      let root := if useHm == 0 then { root with halfmove := hm } else root
+      let (r5, len) := r4.below 60
+      let (r6, ms) := shufflePlayout r5 root (len + 4)
+      r := r6
+      out.putStrLn s!"play\t{posText root}\t{" ".intercalate (ms.map Move.text)}"
+
+def genFen (seed n : Nat) (rootsFile : String) : IO Unit := do
+  let roots ← readLines rootsFile
+  let out ← IO.getStdout
+  let ps := genPositions (seed + 307) (n / 3) roots
+  let mut r := Rng.ofSeed (seed + 311)
+  for p in ps do
+    let t := posText p
+    out.putStrLn s!"fenrt\t{t}"
+    out.putStrLn s!"fen\t{t}"
+    -- optional counters omitted, as the grammar allows
+    let fields := t.splitOn " "
+    out.putStrLn s!"fen\t{" ".intercalate (fields.take 4)}"
+    out.putStrLn s!"fen\t{" ".intercalate (fields.take 5)}"
+    for v in numberVariants do
+      out.putStrLn s!"fen\t{" ".intercalate (fields.take 4)} {v} 1"
+      out.putStrLn s!"fen\t{" ".intercalate (fields.take 5)} {v}"
+    -- two random corruptions
+    let (r1, m1) := mutateText r t.toList
+    let (r2, m2) := mutateText r1 m1
+    r := r2
+    let clean (l : List Char) := String.ofList (l.filter (fun c => c != '\n' && c != '\r'))
+    out.putStrLn s!"fen\t{clean m1}"
+    out.putStrLn s!"fen\t{clean m2}"
+  -- systematic rank-width corruptions of the start position
+  let ranks := ["rnbqkbnr", "pppppppp", "8", "8", "8", "8", "PPPPPPPP", "RNBQKBNR"]
+  let variants := ["9", "7", "44p", "ppppppppp", "ppppppp", "71", "17", "p7p", "8p", "", "1p6", "0p7", "p0p6"]
+  for i in List.range 8 do
+    for v in variants do
+      let rs := ranks.zipIdx.map fun (x, k) => if k == i then v else x
+      out.putStrLn s!"fen\t{"/".intercalate rs} w KQkq - 0 1"
+    -- compensating pair: one rank too wide, the next too narrow (total still 64)
+    if i < 7 then
+      let rs := ranks.zipIdx.map fun (x, k) => if k == i then "ppppppppp" else if k == i + 1 then "7" else x
+      out.putStrLn s!"fen\t{"/".intercalate rs} w - - 0 1"
+
 def main (args : List String) : IO UInt32 := do
   match args with
   | ["serve"] =>
@@ -268,6 +368,9 @@ def main (args : List String) : IO UInt32 := do
   | ["gen", "c07", seed, n] => genC07 seed.toNat! n.toNat!; return 0
   | ["gen", "moves", seed, n, roots] => genMoves seed.toNat! n.toNat! roots; return 0
   | ["gen", "play", seed, n, roots] => genPlay seed.toNat! n.toNat! roots; return 0
+  | ["gen", "templates", seed, n] => genTemplates seed.toNat! n.toNat!; return 0
+  | ["gen", "draws", seed, n, roots] => genDraws seed.toNat! n.toNat! roots; return 0
+  | ["gen", "fen", seed, n, roots] => genFen seed.toNat! n.toNat! roots; return 0
   | _ =>
     IO.eprintln "usage: tvdriver serve | gen <stream> <seed> <n> [roots-file]"
     return 2
